@@ -65,7 +65,11 @@ def run_c09(c):
     nmax = c.get("steps", n)
     ts = ghe.radial_numerical.t_s
     tv = [0.0] + captured["t"]
-    out = {"n": n, "hp_eft": [float(x) for x in ghe.hp_eft[:nmax]], "dTb": [float(x) for x in ghe.dTb[:nmax]],
+    # the documented formula takes ln(t_n - t_(i-1)): it is defined on the strictly increasing prefix of the time axis
+    # (the hybrid scheme can emit a negative time step when peak windows overlap; C08 excludes that case, the code warns)
+    mono = next((i - 1 for i in range(1, len(tv)) if tv[i] <= tv[i - 1]), len(tv) - 1)
+    nmax = min(nmax, mono)
+    out = {"n": n, "increasing_prefix": mono, "hp_eft": [float(x) for x in ghe.hp_eft[:nmax]], "dTb": [float(x) for x in ghe.dTb[:nmax]],
            "q": captured["q"][:nmax], "t": captured["t"][:nmax],
            "params": {"nbh": ghe.nbh, "H": ghe.bhe.b.H, "two_pi_k": 2 * pi * ghe.bhe.soil.k, "Tg": ghe.bhe.soil.ugt,
                       "Rb": float(ghe.bhe.calc_effective_borehole_resistance()), "mdot": ghe.bhe.m_flow_borehole, "cp": ghe.bhe.fluid.cp, "ts": ts},
